@@ -2,6 +2,7 @@ package gorums
 
 import (
 	"context"
+	"google.golang.org/protobuf/proto"
 
 	"github.com/relab/gorums/ordering"
 )
@@ -22,7 +23,8 @@ func (c RawConfiguration) Multicast(ctx context.Context, d QuorumCallData, opts 
 	for _, n := range c {
 		msg := d.Message
 		if d.PerNodeArgFn != nil {
-			msg = d.PerNodeArgFn(d.Message, n.id)
+			// f is documented to receive a copy of the request: the nodes must not share one message
+			msg = d.PerNodeArgFn(proto.Clone(d.Message), n.id)
 			if !msg.ProtoReflect().IsValid() {
 				continue // don't send if no msg
 			}
